@@ -65,5 +65,25 @@ for f in sorted(glob.glob(os.path.join(V, "seeded", "*", "meta.json")), key=key)
     sid = os.path.basename(os.path.dirname(f))
     rows.append(f"| {sid} | {clip(mt.get('what',''), 260)} | {clip(mt.get('check_result',''), 200)} |")
 d = d[:i] + "\n".join(rows) + "\n" + d[j:]
+# ---- 12.7
+hdr = "| edit | class | change | result |\n|----|----|----|----|\n"
+if hdr in d:
+    i = d.index(hdr) + len(hdr)
+    j = i
+    while d[j:].startswith("| C"):
+        nl = d.find("\n", j)
+        j = len(d) if nl < 0 else nl + 1
+    brow = []
+
+    def bkey(p):
+        b = os.path.basename(os.path.dirname(p))
+        a, n = b.split("-b")
+        return (a, int(n))
+
+    for f in sorted(glob.glob(os.path.join(V, "benign", "*", "meta.json")), key=bkey):
+        mt = json.load(open(f))
+        sid = os.path.basename(os.path.dirname(f))
+        brow.append(f"| {sid} | {mt.get('class','')} | {clip(mt.get('what',''), 220)} | {clip(mt.get('check_result',''), 160)}; before: {mt.get('before_tolerance_mechanisms','')} |")
+    d = d[:i] + "\n".join(brow) + "\n" + d[j:]
 open(os.path.join(V, "DESIGN.md"), "w").write(d)
 print("DESIGN.md section 12 tables regenerated:", len(rows), "seeds,", len(fixed), "fixes")
